@@ -285,8 +285,19 @@ def wl_strings(ctx, rng):
     ctx.check('text-equals-direct', got.priorMode is want.priorMode, text=text)
     u = rng.random(200)
     ctx.close('text-equals-direct', got.sample(u), want.sample(u), 0.0, text=text)
+    # the same text read again (two parameters with the same prior, a second input file in the same process) while the
+    # first object was re-tuned in between: every reading gives the prior the TEXT describes
+    if cls in ('Uniform', 'LogUniform') and rng.random() < 0.6:
+        a2, b2 = rnd_bounds(rng)
+        if cls == 'LogUniform' and max(abs(a2), abs(b2)) > 250:
+            a2, b2 = -3.0, 7.5
+        got.set_bounds((a2, b2))
+        ctx.observe('text:first-object-retuned')
+    again = create_prior(text)
+    ctx.check('text-read-again-equals-direct', again.params() == want.params(), text=text, got=again.params(), want=want.params())
+    ctx.close('text-read-again-equals-direct', again.sample(u), want.sample(u), 0.0, text=text)
     ctx.sig('text', cls, text)
-    ctx.sample({'text': text, 'params': got.params()})
+    ctx.sample({'text': text, 'params': again.params()})
     # unknown prior names are errors
     if rng.random() < 0.1:
         try:
